@@ -42,8 +42,26 @@ def table_wire(df):
     return {"cols": [c for c in cols if not c.startswith("tag:")], "rows": rows, "isnone": False}
 
 
+class BuildFailure(Exception):
+    """the library refused (or crashed on) a call of a construction history that the specification accepts"""
+
+    def __init__(self, system, op, args, exc):
+        Exception.__init__(self, "%s%r: %s: %s" % (op, args, type(exc).__name__, exc))
+        self.system, self.op, self.args_, self.exc = system, op, args, exc
+
+    def case(self, cid, want=None):
+        c = solve_case(None, cid)
+        c["built"] = False
+        c["outcome"], c["exc"], c["msg"] = "buildexc", type(self.exc).__name__, ("%s: %s" % (self.op, self.exc))[:160]
+        c["failed_call"] = {"op": self.op, "args": self.args_}
+        if want is not None:
+            c["want"], c["haswant"] = want, False
+        return c
+
+
 def build_system(states, gen, rng, sysname="sys"):
-    """replay a SpecBuild behaviour with numeric components; returns the System"""
+    """replay a SpecBuild behaviour with numeric components; returns the System.  Every call of such a behaviour
+    is accepted by the specification (SysTree guards); a call the library refuses raises BuildFailure"""
     from sysloss.system import System
 
     def resolve(s, refs):
@@ -53,29 +71,38 @@ def build_system(states, gen, rng, sysname="sys"):
             out.append(s._g[idx]._params["name"] if idx != -1 else r)
         return out
 
+    def apply(s, op, a):
+        if op == "add_source":
+            s.add_source(build(gen.desc("Source", a["comp"]["name"])), rail=a["rail"], group=a["group"])
+        elif op == "add_comp":
+            parents = resolve(s, a["refs"])
+            c = build(gen.desc(a["comp"]["cls"], a["comp"]["name"], parents))
+            s.add_comp(list(a["refs"]) if a["aslist"] else a["refs"][0], comp=c, rail=a["rail"], group=a["group"])
+        elif op == "set_sys_phases":
+            s.set_sys_phases({p["name"]: float("%.3g" % math.exp(rng.uniform(math.log(0.05), math.log(2000))))
+                              for p in a["phases"]})
+        elif op == "set_comp_phases":
+            idx = s._get_index(a["ref"])
+            cls = type(s._g[idx]).__name__
+            phs = list(a["conf"]["v"])
+            if cls in ("PLoad", "ILoad", "RLoad"):
+                s.set_comp_phases(a["ref"], {p: gen.phase_value(cls) for p in phs})
+            elif cls not in ("RLoss", "VLoss"):
+                s.set_comp_phases(a["ref"], phs)
+
     with warnings.catch_warnings():
         warnings.simplefilter("ignore")
         s = System(sysname, build(gen.desc("Source", "a")))
         for st in states:
             op, a = st["act"]["op"], st["act"]["a"]
-            if op == "add_source":
-                s.add_source(build(gen.desc("Source", a["comp"]["name"])), rail=a["rail"], group=a["group"])
-            elif op == "add_comp":
-                parents = resolve(s, a["refs"])
-                c = build(gen.desc(a["comp"]["cls"], a["comp"]["name"], parents))
-                s.add_comp(list(a["refs"]) if a["aslist"] else a["refs"][0], comp=c, rail=a["rail"], group=a["group"])
-            elif op == "set_sys_phases":
-                s.set_sys_phases({p["name"]: float("%.3g" % math.exp(rng.uniform(math.log(0.05), math.log(2000))))
-                                  for p in a["phases"]})
-            elif op == "set_comp_phases":
-                idx = s._get_index(a["ref"])
-                cls = type(s._g[idx]).__name__
-                phs = list(a["conf"]["v"])
-                if cls in ("PLoad", "ILoad", "RLoad"):
-                    s.set_comp_phases(a["ref"], {p: gen.phase_value(cls) for p in phs})
-                elif cls not in ("RLoss", "VLoss"):
-                    s.set_comp_phases(a["ref"], phs)
+            try:
+                apply(s, op, a)
+            except Exception as e:
+                raise BuildFailure(s, op, a, e)
     return s
+
+
+EMPTY_ST = {"comps": [], "sysph": [], "anom": []}
 
 
 def solve_case(s, cid, rail_rep=False, **kw):
@@ -83,11 +110,13 @@ def solve_case(s, cid, rail_rep=False, **kw):
     args = {"phase": kw.get("phase", ""), "ta": cell(kw.get("ta", 25.0)), "vtol": cell(kw.get("vtol", 1e-6)),
             "itol": cell(kw.get("itol", 1e-6)), "energy": bool(kw.get("energy", False)),
             "maxiter": int(kw.get("maxiter", 10000))}
-    case = {"id": cid, "st": project(s), "args": args, "kw": {k: v for k, v in kw.items() if k not in ("tags",)}, "outcome": "ok", "exc": "", "msg": "",
+    case = {"id": cid, "built": True, "st": project(s) if s is not None else EMPTY_ST, "args": args, "kw": {k: v for k, v in kw.items() if k not in ("tags",)}, "outcome": "ok", "exc": "", "msg": "",
             "table": {"cols": ["none"], "rows": [], "isnone": True},
             "rail": {"cols": ["none"], "rows": [], "isnone": True}, "hasrail": False, "railexc": "",
-            "has_design": False, "design": [],
+            "has_design": False, "design": [], "haswant": False, "want": [],
             "has_slice": False, "slice_of": {"cols": ["none"], "rows": [], "isnone": True}}
+    if s is None:
+        return case
     try:
         with warnings.catch_warnings():
             warnings.simplefilter("ignore")
@@ -107,3 +136,19 @@ def solve_case(s, cid, rail_rep=False, **kw):
             case["hasrail"] = True
             case["railexc"] = type(e).__name__
     return case
+
+
+def want_of(sysst):
+    """the configured system according to the TLC construction behaviour (final state of SpecBuild): what the
+    projected state must show for rails, supply inputs, classes and phase configurations"""
+    out = []
+    for n, c in sysst["comps"].items():
+        cf = sysst["pconf"][n]
+        load = c["cls"] in ("PLoad", "ILoad", "RLoad")
+        keys = list(cf["v"]) if cf["t"] in ("list", "map") else []
+        if cf["t"] == "map":
+            keys = [k[0] if isinstance(k, (list, tuple)) else k for k in keys]
+        ct = "none" if cf["t"] == "none" else ("map" if load else "list")
+        out.append({"name": n, "cls": c["cls"], "rail": c["rail"], "group": c["group"], "par": list(sysst["par"][n]),
+                    "ct": ct, "ck": keys})
+    return out
